@@ -11,7 +11,7 @@ impl<'de, R: Reader<'de>> Parser<R> {
                 &&& (res.is_ok() ==> final(self).read.idx() == c + 1)
                 &&& final(self).read.idx() >= old(self).read.idx()
             }),
-//@after /if ch == b':' \{/
+//@after /if ch ==/
                 proof { lemma_ws_end_stop(self.read.data(), self.read.idx() as int, self.read.idx() as int); }
 //@before /match self.skip_space\(\) \{/
             proof { lemma_ws_end_bounds(self.read.data(), self.read.idx() as int); }
@@ -108,7 +108,7 @@ impl<'de, R: Reader<'de>> Parser<R> {
         let ghost s = self.read.data();
         let ghost i0 = self.read.idx() as int;
         proof { lemma_ws_end_bounds(s, i0); axiom_lits(); }
-//@before /let slice = self.read.slice_unchecked\(start, self.read.index\(\)\);/
+//@before /let slice =/
         proof { lemma_value_end_bounds(s, i0); }
 //@end
 
@@ -118,9 +118,9 @@ impl<'de, R: Reader<'de>> Parser<R> {
         ensures final(self).pinv(), final(self).same_doc(old(self)),
             // for a checked reader (idx <= len): Ok iff only whitespace is left
             res.is_ok() <==> ws_end(old(self).read.data(), old(self).read.idx() as int) == old(self).read.data().len(),
-//@before /let exceed = self.read.index\(\) > self.read.as_u8_slice\(\).len\(\);/ #1
+//@before /let exceed =/ #1
         proof { lemma_ws_end_bounds(self.read.data(), self.read.idx() as int); }
-//@before /let last = self.skip_space\(\);/
+//@before /let last =/
         proof { lemma_ws_end_stop(self.read.data(), self.read.data().len() as int, self.read.data().len() as int); }
 //@end
 }
